@@ -137,7 +137,7 @@ func newPackage(program *loader.Program, pkgInfo *loader.PackageInfo, plugins []
 	for _, plugin := range plugins {
 		generators[plugin.Name()] = plugin.New(typesmaps[plugin.Name()], printer, deps)
 	}
-	pkg := &pkg{pkgInfo, plugins, generators, typesmaps, printer, nil, fullpath}
+	pkg := &pkg{pkgInfo, plugins, generators, typesmaps, printer, nil, fullpath, isExternalTest(program, pkgInfo)}
 	for _, fileInfo := range fileInfos {
 
 		changed := false
@@ -207,12 +207,19 @@ type pkg struct {
 	printer    Printer
 	undefined  []*ast.CallExpr
 	fullpath   string
+	// external says that this is an external test package (package p_test): derived.gen.go of its directory
+	// belongs to the package under test.
+	external bool
 }
 
 func (pkg *pkg) Add(call *call) (string, error) {
 	for _, p := range pkg.plugins {
 		if !strings.HasPrefix(call.Name, p.GetPrefix()) {
 			continue
+		}
+		if pkg.external {
+			return "", fmt.Errorf("Add Error: %s: %s is called in the external test package %s, "+
+				"which has no generated file of its own: derived.gen.go belongs to the package under test", p.Name(), call.Name, pkg.info.Pkg.Name())
 		}
 		generator := pkg.generators[p.Name()]
 		name, err := generator.Add(call.Name, call.Args)
